@@ -31,7 +31,7 @@ def prepare():
     assert r.returncode == 0, r.stdout
     # harness copy (keeps its target dirs between mutants: only etherparse is rebuilt)
     os.makedirs(HARN, exist_ok=True)
-    sh("rsync", "-a", "--delete", "--exclude", "target*", os.path.join(VERIF, "harness") + "/", HARN + "/")
+    sh("rsync", "-a", "--delete", "--exclude", "target*", (os.environ.get("VERIF_SELFTEST_HARNESS_SRC") or os.path.join(VERIF, "harness")) + "/", HARN + "/")
     p = os.path.join(HARN, "Cargo.toml")
     s = open(p).read().replace('path = "/repo/etherparse"', 'path = "%s/etherparse"' % WT)
     open(p, "w").write(s)
